@@ -333,7 +333,8 @@ int wait_task(int id) {
 int cur_task() { return W.cur; }
 int cur_task_kind() { return W.cur >= 0 ? W.tasks[W.cur]->kind : -1; }
 int64_t now_ns() { return W.now; }
-void set_cur_op(int op) { if (W.cur >= 0) W.tasks[W.cur]->cur_op = op; }
+volatile int *cur_op_mirror = nullptr;      // shared page of an isolating parent: which library call a child was in when it died
+void set_cur_op(int op) { if (W.cur >= 0) W.tasks[W.cur]->cur_op = op; if (cur_op_mirror) *cur_op_mirror = op; }
 int cur_op() { return W.cur >= 0 ? W.tasks[W.cur]->cur_op : -1; }
 int cur_op_of(int task) { return (task >= 0 && task < (int) W.tasks.size()) ? W.tasks[task]->cur_op : -1; }
 int64_t stalled_ns_of(int task) { return (task >= 0 && task < (int) W.tasks.size()) ? W.tasks[task]->stalled_ns : 0; }
